@@ -1,11 +1,45 @@
-from jsim.envs.base import Adapter
+"""TSP: rules written from docs/environments/tsp.md and the class docstring.
+
+num_cities cities with coordinates in the unit square. An action is the index of the next city to visit;
+it is legal iff that city has not been visited yet. `trajectory` lists the visited cities in order (-1 =
+not filled yet), `position` is the last visited city. The episode ends when all cities have been visited,
+or on an invalid action (a city selected again): then the reward is the penalty -num_cities*sqrt(2).
+Dense reward: minus the distance from the current city to the chosen one, 0 for the first chosen city, and
+for the last city it also includes the distance back to the initial city. Sparse reward: minus the tour
+length (closed tour: starts at the first city and ends there after visiting all cities) on the last step,
+0 before.
+"""
+from __future__ import annotations
+
+from typing import Any, List, Optional, Tuple
+
+import numpy as np
+
 from jsim.envs._mk import cfg
+from jsim.envs.base import Adapter
+
+PROBLEM_FIELDS = ("coordinates", "visited_mask", "trajectory", "position", "num_visited")
+
+
+def _dist(xy: np.ndarray, i: int, j: int) -> float:
+    d = np.asarray(xy[int(i)], np.float64) - np.asarray(xy[int(j)], np.float64)
+    return float(np.sqrt((d * d).sum()))
+
+
+def _close(a: float, b: float) -> bool:
+    return bool(np.isclose(a, b, rtol=1e-5, atol=1e-5))
 
 
 class A(Adapter):
     name = "TSP"
     mask_mode = "flat"
     terminate_on_invalid = True
+    has_reaction = True
+    has_invalid_effect = True
+    has_constraints = True
+    has_objective = True
+    has_model = True
+    has_observer = True
 
     def configs(self):
         return [cfg("n20", True, n=20, rew="dense"), cfg("n4sparse", True, n=4, rew="sparse"), cfg("n9", n=9, rew="dense"), cfg("n2sparse", n=2, rew="sparse")]
@@ -19,3 +53,178 @@ class A(Adapter):
 
     def horizon(self, env, c):
         return c["n"]
+
+    # ---- rules ---------------------------------------------------------------------------------
+    @staticmethod
+    def _route(s: Any) -> List[int]:
+        """The cities visited so far, in order: the filled prefix of the trajectory."""
+        k = int(s.num_visited)
+        return [int(c) for c in np.asarray(s.trajectory)[:k]]
+
+    @staticmethod
+    def _penalty(n: int) -> float:
+        return -float(n) * float(np.sqrt(2.0))
+
+    def legal(self, s: Any, env: Any) -> np.ndarray:
+        # a city can be visited iff it is not on the route so far (the route, not the cached visited_mask,
+        # is used so that the mask is judged against the history the state records)
+        n = int(np.asarray(s.trajectory).shape[0])
+        out = np.ones(n, bool)
+        for c in self._route(s):
+            if 0 <= c < n:
+                out[c] = False
+        return out
+
+    def describe(self, s, env, idx):
+        return f"route so far {self._route(s)} visited_mask={np.flatnonzero(np.asarray(s.visited_mask)).tolist()}"
+
+    # ---- C04 (b) -------------------------------------------------------------------------------
+    def reaction_invalid(self, ps, action, agent, s, ts, env, cfg):
+        # invalid signature: LAST carrying the documented penalty (a completing move carries at most
+        # -2*sqrt(2) dense / minus a tour length that equals n*sqrt(2) only for a degenerate instance)
+        if int(ts.step_type) != 2:
+            return False
+        return _close(float(ts.reward), self._penalty(cfg["n"]))
+
+    # ---- C05 -----------------------------------------------------------------------------------
+    def invalid_effect(self, ps, action, illegal, s, ts, env, cfg):
+        n = cfg["n"]
+        if int(ts.step_type) != 2:
+            return ("invalid_move_not_terminal", f"step_type {int(ts.step_type)} after re-selecting city {int(action)} (route {self._route(ps)})")
+        if not _close(float(ts.reward), self._penalty(n)):
+            return ("invalid_move_reward", f"reward {float(ts.reward)} != documented penalty -num_cities*sqrt(2) = {self._penalty(n)}")
+        if float(np.asarray(ts.discount)) != 0.0:
+            return ("invalid_move_discount", f"discount {float(np.asarray(ts.discount))} != 0 on the terminal step")
+        for f in PROBLEM_FIELDS:
+            if not np.array_equal(np.asarray(getattr(ps, f)), np.asarray(getattr(s, f))):
+                return ("invalid_move_changed_state", f"field {f} changed on an invalid move: {np.asarray(getattr(ps, f)).tolist()} -> {np.asarray(getattr(s, f)).tolist()}")
+        return None
+
+    # ---- C06 -----------------------------------------------------------------------------------
+    def constraints(self, hist, env, cfg):
+        n = cfg["n"]
+        steps = [r for r in hist[1:] if not r.post_terminal]
+        acts = [int(r.action) for r in steps]
+        s = hist[-1].state
+        if len(set(acts)) != len(acts):
+            dup = [a for i, a in enumerate(acts) if a in acts[:i]][0]
+            return ("city_visited_twice", f"legal play visited city {dup} twice: actions {acts}")
+        traj = np.asarray(s.trajectory)
+        want = np.full(n, -1, dtype=np.int64)
+        want[:len(acts)] = acts[:n]
+        if not np.array_equal(traj, want):
+            return ("trajectory_differs_from_history", f"trajectory {traj.tolist()} but the actions played were {acts}")
+        if int(s.num_visited) != len(acts):
+            return ("num_visited_differs_from_history", f"num_visited {int(s.num_visited)} after {len(acts)} legal visits")
+        vm = np.zeros(n, bool)
+        vm[acts] = True
+        if not np.array_equal(np.asarray(s.visited_mask).astype(bool), vm):
+            return ("visited_mask_differs_from_history", f"visited_mask {np.flatnonzero(np.asarray(s.visited_mask)).tolist()} but cities visited were {sorted(acts)}")
+        if acts and int(s.position) != acts[-1]:
+            return ("position_differs_from_history", f"position {int(s.position)} but the last city visited was {acts[-1]}")
+        if not np.array_equal(np.asarray(s.coordinates), np.asarray(hist[0].state.coordinates)):
+            return ("coordinates_changed", "city coordinates differ from those of the reset state")
+        if steps and int(hist[-1].ts.step_type) == 2 and len(acts) != n:
+            return ("ended_with_incomplete_tour", f"episode ended under legal play with {len(acts)}/{n} cities visited")
+        return None
+
+    # ---- C08 -----------------------------------------------------------------------------------
+    @staticmethod
+    def _tour_length(xy: np.ndarray, route: List[int]) -> float:
+        return sum(_dist(xy, route[i], route[(i + 1) % len(route)]) for i in range(len(route)))
+
+    def objective(self, hist, env, cfg):
+        s = hist[-1].state
+        route = self._route(s)
+        if len(route) != cfg["n"] or sorted(route) != list(range(cfg["n"])):
+            return None  # the tour is not complete: the objective is undefined
+        return -self._tour_length(np.asarray(s.coordinates), route)
+
+    def sparse_twin(self, c):
+        d = dict(c)
+        d["rew"] = "sparse" if c["rew"] == "dense" else "dense"
+        d["id"] = f"{c['id']}~{d['rew']}"
+        return d
+
+    # ---- C09 -----------------------------------------------------------------------------------
+    def model_step(self, ps, action, s, ts, env, cfg):
+        n = cfg["n"]
+        a = int(action)
+        route = self._route(ps)
+        xy = np.asarray(ps.coordinates)
+        if a in route:  # invalid: terminates with the penalty; the state is not judged here (C05 does)
+            want_r, done = self._penalty(n), True
+        else:
+            new_route = route + [a]
+            done = len(new_route) == n
+            if cfg["rew"] == "dense":
+                want_r = 0.0 if not route else -_dist(xy, route[-1], a)
+                if done:
+                    want_r -= _dist(xy, a, new_route[0])
+            else:
+                want_r = -self._tour_length(xy, new_route) if done else 0.0
+            traj = np.full(n, -1, dtype=np.int64)
+            traj[:len(new_route)] = new_route
+            if not np.array_equal(np.asarray(s.trajectory), traj):
+                return ("trajectory", f"trajectory {np.asarray(s.trajectory).tolist()} expected {traj.tolist()}")
+            if int(s.position) != a:
+                return ("position", f"position {int(s.position)} expected {a}")
+            if int(s.num_visited) != len(new_route):
+                return ("num_visited", f"num_visited {int(s.num_visited)} expected {len(new_route)}")
+            vm = np.zeros(n, bool)
+            vm[new_route] = True
+            if not np.array_equal(np.asarray(s.visited_mask).astype(bool), vm):
+                return ("visited_mask", f"visited {np.flatnonzero(np.asarray(s.visited_mask)).tolist()} expected {sorted(new_route)}")
+            if not np.array_equal(np.asarray(s.coordinates), xy):
+                return ("coordinates", "coordinates changed during a step")
+        if not _close(float(ts.reward), want_r):
+            return ("reward", f"reward {float(ts.reward)} expected {want_r} ({cfg['rew']}, route {route} + {a})")
+        if (int(ts.step_type) == 2) != done:
+            return ("termination", f"step_type {int(ts.step_type)} but the rules say done={done} (route {route} + {a}, {n} cities)")
+        return None
+
+    # ---- C11 -----------------------------------------------------------------------------------
+    def end_cause(self, ps, action, s, ts, env, cfg):
+        route = self._route(ps)
+        if int(action) in route:
+            return "invalid_action"
+        if len(route) + 1 == cfg["n"]:
+            return "all_cities_visited"
+        return None
+
+    # ---- C12 -----------------------------------------------------------------------------------
+    def observe(self, s, obs, env, cfg):
+        if not np.array_equal(np.asarray(obs.coordinates), np.asarray(s.coordinates)):
+            return ("coordinates", "obs.coordinates != state.coordinates")
+        if np.asarray(obs.position).shape != () or int(obs.position) != int(s.position):
+            return ("position", f"obs.position {np.asarray(obs.position).tolist()} vs state.position {int(s.position)}")
+        if not np.array_equal(np.asarray(obs.trajectory), np.asarray(s.trajectory)):
+            return ("trajectory", f"obs.trajectory {np.asarray(obs.trajectory).tolist()} vs state {np.asarray(s.trajectory).tolist()}")
+        can = ~np.asarray(s.visited_mask).astype(bool)  # "whether a city can be visited"
+        m = np.asarray(obs.action_mask)
+        if m.shape != can.shape or not np.array_equal(m.astype(bool), can):
+            return ("action_mask", f"obs.action_mask {m.astype(int).tolist()} vs unvisited cities {can.astype(int).tolist()}")
+        return None
+
+    # ---- policies ------------------------------------------------------------------------------
+    def policy_complete(self, s, env, rng, legal):
+        """Nearest unvisited city (any legal play completes the tour; this gives short tours)."""
+        if legal is None or not legal.any():
+            return None
+        route = self._route(s)
+        idx = np.flatnonzero(legal)
+        if not route:
+            return int(idx[int(rng.integers(0, len(idx)))])
+        xy = np.asarray(s.coordinates)
+        return int(min(idx, key=lambda c: _dist(xy, route[-1], c)))
+
+    def policy_survive(self, s, env, rng, legal):
+        """Farthest unvisited city (long tours)."""
+        if legal is None or not legal.any():
+            return None
+        route = self._route(s)
+        idx = np.flatnonzero(legal)
+        if not route:
+            return int(idx[int(rng.integers(0, len(idx)))])
+        xy = np.asarray(s.coordinates)
+        return int(max(idx, key=lambda c: _dist(xy, route[-1], c)))
